@@ -305,7 +305,11 @@ impl Kinematics for OPWKinematics {
     }
 
     fn kinematic_singularity(&self, joints: &Joints) -> Option<Singularity> {
-        if is_close_to_multiple_of_pi(joints[J5], SINGULARITY_ANGLE_THR) {
+        // The axes of J4 and J6 are collinear when the model angle of J5 (sign correction
+        // and offset applied, as in forward kinematics) is a multiple of PI.
+        let p = &self.parameters;
+        let q5 = joints[J5] * p.sign_corrections[J5] as f64 - p.offsets[J5];
+        if is_close_to_multiple_of_pi(q5, SINGULARITY_ANGLE_THR) {
             Some(Singularity::A)
         } else {
             None
